@@ -171,6 +171,13 @@ func runMerge(
 	if !strings.HasPrefix(name, "heads/") {
 		return fmt.Errorf("%q is not a branch name", args[0])
 	}
+	// BRANCH^ or BRANCH~N names a commit, not a branch: merging into it would move BRANCH
+	// away from its head
+	if head, err := ref.GetHead(rs, strings.TrimPrefix(name, "heads/")); err != nil {
+		return err
+	} else if !bytes.Equal(head, sum) {
+		return fmt.Errorf("%q is not a branch name", args[0])
+	}
 	commits := [][]byte{sum}
 	commitNames := []string{displayableCommitName(args[0], sum)}
 	for _, s := range args[1:] {
